@@ -1244,6 +1244,16 @@ def generate(ctx):
             for o in comps(n):
                 for w in comps(n):
                     yield "rechunk", {"old": [list(o)], "target": [list(w)]}
+        # every pair of chunkings of the shapes (3, 4) and (2, 2, 3), planned under a tight and a loose limit
+        import itertools
+        for shape in ([3, 4], [2, 2, 3]):
+            alls = [list(map(list, c)) for c in itertools.product(*[comps(n) for n in shape])]
+            for o in alls:
+                for w in alls:
+                    if o != w:
+                        lo = max(math.prod(max(c) for c in o), math.prod(max(c) for c in w))
+                        for bsl in (lo, 4 * lo):
+                            yield "planner", {"op": "plan", "old": o, "new": w, "itemsize": 1, "threshold": 1, "bsl": bsl}
         # all pairs of proper refinements of a single chunk of length n, computed together
         for n in range(2, 6):
             cs = [list(c) for c in comps(n) if len(c) > 1]
